@@ -252,3 +252,83 @@ func GenOps(t *rapid.T, kind string, n, maxN int) []Op {
 	}
 	return ops
 }
+
+// SortedBy returns xs sorted by the comparator (stable).
+func SortedBy[E cmp.Ordered](less func(a, b E) int, xs []E) []E {
+	out := slices.Clone(xs)
+	slices.SortStableFunc(out, less)
+	return out
+}
+
+// Expect is the normalised observable state the model predicts (compare with
+// (*all.H).Observe via all.EqualStates).
+func (m *Model[E]) Expect() all.State[E] {
+	var s all.State[E]
+	kind := m.Cfg.Kind
+	less := all.Comparator[E](m.Cfg.Rev && all.UsesComparator(kind))
+	keys := func() []E {
+		ks := make([]E, 0, len(m.Map))
+		for k := range m.Map {
+			ks = append(ks, k)
+		}
+		return ks
+	}
+	switch all.Family(kind) {
+	case "list", "queue", "stack":
+		s.Values = slices.Clone(m.Seq)
+		s.Size = len(m.Seq)
+		if all.Family(kind) != "list" && len(m.Seq) > 0 {
+			s.PeekOK, s.PeekV = true, m.Seq[0]
+		}
+	case "heap":
+		s.Values = slices.Clone(m.Seq)
+		slices.Sort(s.Values)
+		s.Size = len(m.Seq)
+		if len(m.Seq) > 0 {
+			s.PeekOK, s.PeekV = true, SortedBy(less, m.Seq)[0]
+		}
+	case "set":
+		s.Size = len(m.Map)
+		switch kind {
+		case "hashset":
+			s.Values = keys()
+			slices.Sort(s.Values)
+		case "treeset":
+			s.Values = SortedBy(less, keys())
+		case "linkedhashset":
+			s.Values = slices.Clone(m.Order)
+		}
+	default: // map, bidi, tree
+		s.Size = len(m.Map)
+		s.Pairs = map[E]E{}
+		for k, v := range m.Map {
+			s.Pairs[k] = v
+		}
+		switch kind {
+		case "hashmap", "hashbidimap":
+			s.Keys = keys()
+			slices.Sort(s.Keys)
+			for _, v := range m.Map {
+				s.Values = append(s.Values, v)
+			}
+			slices.Sort(s.Values)
+		case "linkedhashmap":
+			s.Keys = slices.Clone(m.Order)
+			for _, k := range s.Keys {
+				s.Values = append(s.Values, m.Map[k])
+			}
+		case "treebidimap":
+			s.Keys = SortedBy(less, keys())
+			for _, v := range m.Map {
+				s.Values = append(s.Values, v)
+			}
+			s.Values = SortedBy(less, s.Values)
+		default:
+			s.Keys = SortedBy(less, keys())
+			for _, k := range s.Keys {
+				s.Values = append(s.Values, m.Map[k])
+			}
+		}
+	}
+	return s
+}
